@@ -8,7 +8,7 @@ import ast
 import re
 from typing import Dict, List, Optional, Set, Tuple
 
-from ..cfg import CFG, edges_guaranteeing, returns_only_through
+from ..cfg import CFG, edges_guaranteeing, reaching_defs, returns_only_through
 from ..engine import (
     AnalysisError,
     FuncNode,
@@ -824,6 +824,9 @@ def run(repo: Repo, R: Report) -> None:
     # ---- critical sections end before control leaves the transport -----------------------------------------
     _lock_scope(R, prov, deque_bindings, map_lock)
 
+    # ---- a channel's lock is released by its holder only -------------------------------------------------
+    _release_owned(R, prov, deque_bindings)
+
     # ---- every scan reads the live map ------------------------------------------------------------------
     _live_scan(R, prov[SUBSCRIPTION], deque_bindings, sub_map)
 
@@ -927,6 +930,93 @@ def _lock_scope(R: Report, prov: Dict[str, "Prov"], deque_bindings, map_lock: Op
                                 "and a consumer that publishes to it (or waits for a thread that does) while handling the message deadlocks, so the remaining messages are never delivered", n.lineno)
                 elif not isinstance(n, ast.Call):
                     R.ok(r_ls, F, qn, norm(stmt(n)), "suspension point outside every critical section", n.lineno)
+
+
+def _release_owned(R: Report, prov: Dict[str, "Prov"], deque_bindings) -> None:
+    """``threading.Lock.release()`` succeeds from any thread, whoever holds the lock.  The consumer's critical section
+    (emptiness test + pop under the channel's own lock) excludes other consumers only while nobody else releases that lock:
+    code that releases it without holding it (after an ``acquire(timeout=..)`` / ``acquire(False)`` whose result was not
+    tested, inside the ``with`` block that releases it again on exit, through a reference handed to a timer) lets a second
+    consumer into the section and makes the holder's own exit raise ``RuntimeError: release unlocked lock`` - in the
+    consumer that is between ``popleft`` and ``yield``: the popped message is lost.  Decided on the CFG: every path from
+    the function entry to a release passes a point at which the same lock was certainly acquired by this code."""
+    r_ro = R.rule("C14-D2-release-owned", "a channel's lock is released only by the code that holds it: every explicit release() is the `finally` of its own blocking acquire, or is reachable only through a point where an acquire of the same lock certainly succeeded (a blocking acquire statement, the true edge of a test of the acquire's result); it is not released inside its own `with` block and `release` is not handed out as a callable", 0)
+    done: Set[Tuple[int, str]] = set()
+    for qn, fn, _qv, lv, _kv in deque_bindings:
+        if (id(fn), lv) in done:
+            continue
+        done.add((id(fn), lv))
+
+        def is_lock(e: ast.AST, lv=lv) -> bool:
+            return lv in _lock_names(e)
+
+        def acquire_of(e: ast.AST, is_lock=is_lock) -> bool:
+            return isinstance(e, ast.Call) and isinstance(e.func, ast.Attribute) and e.func.attr in ("acquire", "__enter__") and is_lock(e.func.value)
+
+        def report(node: ast.AST, why: str, path: Optional[List[str]] = None) -> None:
+            R.violation(r_ro, F, qn, norm(stmt(node)), f"{why}: `threading.Lock.release()` does not check the owner, so the thread that really holds `{lv}` - a consumer inside its "
+                        "test-and-pop critical section - loses the exclusion (a second consumer enters and both take the same head) and its own exit from the section raises "
+                        "RuntimeError('release unlocked lock') after the pop and before the yield: the popped message is lost", getattr(node, "lineno", 0), path)
+
+        flows: Dict[int, CFG] = {}
+        for n in ast.walk(fn):
+            if not (isinstance(n, ast.Attribute) and n.attr in ("release", "_release_save", "__exit__") and isinstance(n.ctx, ast.Load) and is_lock(n.value)):
+                continue
+            c = parent(n)
+            if not (isinstance(c, ast.Call) and c.func is n):
+                report(n, f"`{norm(n)}` is handed out as a callable: whoever calls it later releases the channel's lock without holding it")
+                continue
+            st_ = stmt(c)
+            t = parent(st_)
+            if isinstance(t, ast.Try) and any(x is st_ for x in t.finalbody) and lv in _try_locks(t):
+                R.ok(r_ro, F, qn, norm(st_), "the `finally` of its own blocking acquire", c.lineno)
+                continue
+            w = enclosing_with(c, lv)
+            if w is not None and not any(acquire_of(x) for x in ast.walk(w)):
+                report(c, f"`{lv}` is released inside the block that holds it (`{norm(w).splitlines()[0][:60]}`) and released again when the block is left")
+                continue
+            owner = _owner(c) or fn
+            if id(owner) not in flows:
+                flows[id(owner)] = CFG(owner)
+            g = flows[id(owner)]
+            targets = g.nodes_for(st_)
+            cur: Optional[ast.AST] = st_
+            while not targets and cur is not None and cur is not owner:
+                cur = parent(cur)
+                targets = g.nodes_for(cur) if cur is not None else []
+            # points at which the lock is certainly held by this code
+            held_nodes: Set[int] = set()
+            held_edges: Set[Tuple[int, str]] = set()
+            for nd in g.nodes:
+                if nd.kind == "stmt" and nd.ast is not None:
+                    acq = _lock_method_call(nd.ast, "acquire")
+                    if acq is not None and is_lock(acq):
+                        held_nodes.add(nd.id)
+                if nd.kind in ("if", "while") and nd.part is not None:
+                    def atom(e: ast.AST, nd=nd, g=g) -> Optional[bool]:
+                        if isinstance(e, ast.NamedExpr):
+                            e = e.value
+                        if acquire_of(e):
+                            return True
+                        if isinstance(e, ast.Name):
+                            ds = reaching_defs(g, e.id, nd.id)
+                            if ds and all(d.kind == "stmt" and isinstance(d.ast, (ast.Assign, ast.AnnAssign)) and getattr(d.ast, "value", None) is not None
+                                          and acquire_of(d.ast.value)
+                                          and all(isinstance(t_, ast.Name) for t_ in (d.ast.targets if isinstance(d.ast, ast.Assign) else [d.ast.target])) for d in ds):
+                                return True
+                        return None
+                    for lab in edges_guaranteeing(nd.part, atom):
+                        held_edges.add((nd.id, lab))
+            targets = [t_ for t_ in targets if t_ not in held_nodes]
+            seen = g.reach([g.entry], blocked=held_nodes, blocked_edges=held_edges)
+            bad = [t_ for t_ in targets if t_ in seen]
+            if bad:
+                tried = next((x for x in ast.walk(owner) if acquire_of(x) and (x.args or x.keywords)), None)
+                how = (f"`{norm(tried)}` returns False when the lock was not obtained (it does not raise) and the result is not tested" if tried is not None
+                       else "no acquire of it by this code precedes the release on that path")
+                report(c, f"`{norm(c)}` runs on a path on which this code does not hold `{lv}` ({how})", g.path_to(seen, bad[0]))
+            else:
+                R.ok(r_ro, F, qn, norm(st_), "reached only with the lock acquired by this code", c.lineno)
 
 
 def _live_scan(R: Report, sp: "Prov", deque_bindings, sub_map: str) -> None:
